@@ -12,9 +12,22 @@ func VerifC09Fifo() {
 	maxBytes, syncEvery := verifParams()
 	q := NewDiskQueue("q", dir, maxBytes, syncEvery, time.Hour).(*DiskQueue)
 	var model [][]byte
+	// a fixed prefix of operations (param "prefix": p = put, g = get, r = close+reopen) followed by K free ones
+	prefix := verifParam("prefix")
 	K := verifNumOps()
-	for i := 0; i < K; i++ {
-		switch verifChoice("op", 3) {
+	for i := 0; i < len(prefix)+K; i++ {
+		op := 0
+		if i < len(prefix) {
+			switch prefix[i] {
+			case 'g':
+				op = 1
+			case 'r':
+				op = 2
+			}
+		} else {
+			op = verifChoice("op", 3)
+		}
+		switch op {
 		case 0:
 			m := verifMsg("m")
 			err := q.Put(m)
